@@ -54,6 +54,9 @@ ASSUMPTIONS = [
     "mode A covers three-level trees for (4,4) (K=14) and for the multi kinds; for the other capacities three-level trees are covered by mode B only (depth-bounded)",
     "mode B: in states with many keys every key is queried in every new state, alternating between the const and non-const overloads; re-insertion of present keys and erasure "
     "of absent keys are exercised on a copy in every new state instead of as transitions",
+    "iterator conversions (reverse_iterator(iterator), const variants, iterator(reverse_iterator)) follow the std convention tlx implements (rbegin()==reverse_iterator(end()), "
+    "base()-like copy back); a wrong conversion is reported as <kind>.observe/iterator-conversion but does not make the state terminal (the tree is intact); "
+    "const_iterator(const_reverse_iterator) cannot be instantiated on the current tree (missing friend) and is not exercised",
     "a state whose transition violated an oracle is terminal; crashes under the semantic oracle are left to C02 (same exploration)",
 ]
 
